@@ -254,7 +254,7 @@ Proof. repeat split; vm_compute; reflexivity. Qed.
    Gen/HelpersGen.v) and util.prefer_self (Gen/UtilGen.v) on every check.  The source builds a
    dictionary id -> index; the model lists the ids in index order. *)
 From BiomV Require Gen.Prelude.
-From BiomV Require Import Gen.HelpersGen Gen.UtilGen Proofs.GenBridgeHelpersProofs.
+From BiomV Require Import Gen.HelpersGen Gen.UtilGen Proofs.GenBridgeMergeProofs.
 Theorem union_order_is_source : forall a b,
   map fst (union_id_order a b) = union_order a b /\
   map snd (union_id_order a b) = seq 0 (length (union_order a b)).
@@ -262,7 +262,7 @@ Proof. exact union_order_bridge. Qed.
 Print Assumptions union_order_is_source.
 
 (* partial: an id repeated in `a` is numbered once by the source and listed twice by the filter
-   (GenBridgeHelpersProofs.intersect_order_dup_differs); ids of a well-formed table are distinct *)
+   (GenBridgeMergeProofs.intersect_order_dup_differs); ids of a well-formed table are distinct *)
 Theorem intersect_order_is_source_partial : forall a b, NoDup a ->
   map fst (intersect_id_order a b) = intersect_order a b /\
   map snd (intersect_id_order a b) = seq 0 (length (intersect_order a b)).
